@@ -12,22 +12,28 @@ Open Scope Z_scope.
 
 Record chunk := { c_id : N; c_recs : list bytes; c_size : Z; c_cfrm : nat }.
 Definition journal := list chunk.                (* ascending chunk ids; the last one is written to *)
-Record jcfg := { max_chunk : Z; max_rec : Z }.   (* MaxChunkSize, MaxRecordSize *)
+(* MaxChunkSize; MaxRecordSize as the chunk readers see it (the size of their buffer); the limit the write path
+   of partition.Service applies (Service.maxRecordSize(): the same effective MaxRecordSize when the journal
+   controller's configuration is injected, as server.Start does; 0 = no limit, a Service built without it) *)
+Record jcfg := { max_chunk : Z; max_rec : Z; w_limit : Z }.
 
 Definition jpos := (N * N)%type.                 (* journal.Pos: chunk id, record index *)
 
-(* error values that matter to the callers *)
-Inductive werr := WNil | WMaxSize.       (* nil, errors.MaxSizeReached *)
+(* error values that matter to the callers: nil, errors.MaxSizeReached, the error of the record iterator
+   (any error of Get other than io.EOF; the chunk writer hands it through) *)
+Inductive werr := WNil | WMaxSize | WIter.
 
 Definition chunk_count (c : chunk) : N := N.of_nat (length (c_recs c)).
 Definition rec_disk_size (r : bytes) : Z := 4 + Z.of_nat (length r).   (* ChnkDataHeaderSize + payload *)
 
 Section WithIterator.
 Variable St : Type.
-Variable it_get : St -> St * outcome bytes.        (* records.Iterator.Get: Ok record | Err = io.EOF | Panic *)
+(* records.Iterator.Get: Ok (Some record) | Ok None = io.EOF (nothing more) | Err = any other error | Panic *)
+Variable it_get : St -> St * outcome (option bytes).
 Variable it_next : St -> St.
 
-(* cWriter.write, the loop: the size check comes BEFORE each record, so the last record may overshoot *)
+(* cWriter.write, the loop: the size check comes BEFORE each record, so the last record may overshoot;
+   io.EOF ends the loop with a nil error, another error of the iterator ends it with that error *)
 Fixpoint cw_loop (fuel : nat) (cfg : jcfg) (c : chunk) (s : St) (n : nat) : outcome (chunk * St * nat * werr) :=
   match fuel with
   | O => OutOfFuel
@@ -35,10 +41,11 @@ Fixpoint cw_loop (fuel : nat) (cfg : jcfg) (c : chunk) (s : St) (n : nat) : outc
       if max_chunk cfg <=? c_size c then Ok (c, s, n, WMaxSize)
       else
         match it_get s with
-        | (s', Ok rec) =>
+        | (s', Ok (Some rec)) =>
             let c' := {| c_id := c_id c; c_recs := c_recs c ++ [rec]; c_size := c_size c + rec_disk_size rec; c_cfrm := c_cfrm c |} in
             cw_loop f cfg c' (it_next s') (S n)
-        | (s', Err) => Ok (c, s', n, WNil)
+        | (s', Ok None) => Ok (c, s', n, WNil)
+        | (s', Err) => Ok (c, s', n, WIter)
         | (_, Panic) => Panic
         | (_, OutOfFuel) => OutOfFuel
         end
